@@ -22,6 +22,8 @@ type comparison =
 
 val add : nat -> nat -> nat
 
+val sub : nat -> nat -> nat
+
 val eqb : bool -> bool -> bool
 
 module Nat :
@@ -33,7 +35,11 @@ module Nat :
   val ltb : nat -> nat -> bool
  end
 
+val nth : nat -> 'a1 list -> 'a1 -> 'a1
+
 val nth_error : 'a1 list -> nat -> 'a1 option
+
+val removelast : 'a1 list -> 'a1 list
 
 val rev : 'a1 list -> 'a1 list
 
@@ -42,6 +48,8 @@ val concat : 'a1 list list -> 'a1 list
 val map : ('a1 -> 'a2) -> 'a1 list -> 'a2 list
 
 val flat_map : ('a1 -> 'a2 list) -> 'a1 list -> 'a2 list
+
+val fold_left : ('a1 -> 'a2 -> 'a1) -> 'a2 list -> 'a1 -> 'a1
 
 val fold_right : ('a2 -> 'a1 -> 'a1) -> 'a1 -> 'a2 list -> 'a1
 
@@ -402,6 +410,59 @@ val decode : n list -> n list option
 val list_eqb : n list -> n list -> bool
 
 val escaped_matches : n list -> n list -> bool option
+
+val starts_with : n list -> n list -> bool
+
+val repl : n list -> n list -> nat -> n list -> n list
+
+val replace_all : n list -> n list -> n list -> n list
+
+val occurs_at : n list -> n list -> nat -> bool
+
+val single_at : n list -> n list -> nat -> bool
+
+val render_chain : n list -> n list list -> nat list -> n list list -> n list
+
+val template : n list
+
+val ph_names : n list list
+
+val chain_order : nat list
+
+val excluded_value : n list
+
+val values : n list -> n list -> n list -> bool -> n list list
+
+val render : n list -> n list -> n list -> bool -> n list
+
+val around : n list -> n list -> bool -> n list
+
+val expr_placeholder : n list
+
+val is_crlf_at : n list -> bool
+
+val crlf : n list -> n list
+
+val has_crlf : n list -> bool
+
+val replace_crlf : n list -> n list
+
+val with_next : n list -> (n * n option) list
+
+val dropped : (n * n option) -> bool
+
+val crlf_spec : n list -> n list
+
+val render_output :
+  (n list -> n list) -> bool option -> bool option -> n list -> n list
+
+type wr = bool * n list
+
+val captured : bool -> wr list -> n list * n list
+
+val recorded :
+  (n list -> n list) -> bool -> bool option -> bool option -> wr list -> n
+  list * n list
 
 val make_exp : bool -> bool -> (nat -> bool) -> nat exp
 
